@@ -1,5 +1,8 @@
 import PfModel.DriverVal
 import PfModel.Model.Errors
+import PfModel.Model.ErrorsAsync
+import PfModel.Model.ErrorsStore
+import PfModel.Model.ErrorsKinds
 /-! Driver for C13 (`call.fail`, `map.fail`): the failure models of `PfModel/Model/Errors.lean`. -/
 open Lean PF PF.Drv PF.Errors
 
@@ -23,7 +26,20 @@ def getOracle (j : Json) : R Oracle := do
   return fun name kw =>
     (entries.find? fun (f, k, _) => f = name && (match k with | none => true | some k => k = kwKey kw)).map (·.2.2)
 
+/-- the classes the oracle marks `"base": true` (deriving from `BaseException` only) -/
+def getBaseClasses (j : Json) : R (List String) := do
+  let entries ← asList (fun e => do
+    let x ← fld e "exn"
+    let b := (← optF (fun v => match v with | Json.bool b => pure b | _ => .error "base: bool expected") x "base").getD false
+    return (← strF x "cls", b)) j
+  return (entries.filter (·.2)).map (·.1)
+
 def putSnap (s : Snapshot) : Json := jObj [("fname", jStr s.fname), ("exn", putExn s.exn), ("kwargs", putKw s.kwargs)]
+
+/-- `surface`: is the raised object seen by the `except Exception` sites (note + snapshot) -/
+def putAnnotated (baseCls : List String) (r : Raised) : List (String × Json) :=
+  let s := surface (fun x => !(baseCls.contains x.cls)) r
+  [("annotated", Json.bool (s.note.isSome && s.snap.isSome))]
 
 def putRaised (fails : Oracle) (r : Raised) : List (String × Json) :=
   [("exn", putExn r.exn), ("noteFunc", jStr r.noteFunc), ("noteKw", putKw r.noteKw), ("snap", putSnap r.snap),
@@ -75,25 +91,35 @@ def handle (m : String) (a : Json) : R Json := do
     let kw ← getKw (← fld a "kw")
     let req ← getReq (← fld a "out")
     let fails ← getOracle (← fld a "fail")
+    let baseCls ← getBaseClasses (← fld a "fail")
     match Call.runTopE fails fs kw req with
     | .refused e => return putPErr e
     | .value o => return jObj [("value", putVal o.value), ("calls", jList jStr o.calls)]
     | .raised r calls =>
       return jObj ([("raised", Json.bool true), ("calls", jList putInv calls),
-                    ("pipelineSnap", jOpt putSnap (Call.pipelineSnapshot fails calls))] ++ putRaised fails r)
+                    ("pipelineSnap", jOpt putSnap (Call.pipelineSnapshot fails calls))] ++ putAnnotated baseCls r ++ putRaised fails r)
   | "map.fail" =>
     let fs ← listF getMFunc a "funcs"
     let inputs ← getKw (← fld a "inputs")
     let internal := (← optF (asList (asPair asStr (asList asNat))) a "internal").getD []
     let fails ← getOracle (← fld a "fail")
-    let mode ← match ← strF a "mode" with
+    let baseCls ← getBaseClasses (← fld a "fail")
+    let modeS ← strF a "mode"
+    let mode ← match modeS with
       | "seq" => pure Mode.seq
       | "pool" => pure Mode.pool
+      | "async" => pure Mode.pool
       | s => .error s!"unknown mode {s}"
     -- the order in which the pool runs the tasks of each generation; default: a fair one (submission order)
     let scheds := (← optF (asList (asList asNat)) a "sched").getD []
     let sched : Nat → List Nat := fun g => match scheds[g]? with | some σ => σ | none => List.range 4096
-    match runMapE mode fails sched fs inputs internal with
+    -- the order in which the event loop observes the completions (`map_async` only); default: submission order
+    let loops := (← optF (asList (asList asNat)) a "loop").getD []
+    let loopo : Nat → List Nat := fun g => match loops[g]? with | some ρ => ρ | none => List.range 4096
+    let pre := match Map.validateInputs fs inputs, Map.mapShapes fs inputs (Map.constructInternal fs internal) with
+      | .ok _, .ok sm => some sm
+      | _, _ => none
+    match (if modeS = "async" then runMapA fails sched loopo fs inputs internal else runMapE mode fails sched fs inputs internal) with
     | .refused e => return putMErr e
     | .hang g log => return jObj [("hang", jNat g), ("log", jList putTask log)]
     | .done r =>
@@ -109,9 +135,31 @@ def handle (m : String) (a : Json) : R Json := do
           | _ => Json.null
         | _, _ => Json.null
       let snapP := pipelineSnapshot fails log
-      return jObj ([("raised", Json.bool true), ("gen", jNat g), ("log", jList putTask log), ("stored", putKw stored),
+      -- `map_async`: the invocations whose exception may surface (`C13_async_surface`)
+      let cands : Json :=
+        match pre with
+        | some (shapes, masks) =>
+          match specGensA fails (Map.runFuncWith Map.opArray fs shapes masks) (Map.generations fs) { inputs := inputs, store := [] } 0 with
+          | .ok (some (g', cs)) => jObj [("gen", jNat g'), ("of", jList (fun (c : Task × Exn) => jObj (putRaised fails (raisedOf c.1 c.2))) cs)]
+          | _ => Json.null
+        | none => Json.null
+      -- the re-run on the folder the failed run left (`C13_resume_completes`): no failure, `cleanup=False`, sequential
+      let resume : Json :=
+        match pre with
+        | some (shapes, masks) =>
+          let out := if modeS = "async"
+            then runGensA fails sched loopo (Map.runFuncWith Map.opArray fs shapes masks) (Map.generations fs) { inputs := inputs, store := [] } 0
+            else runGensE mode fails sched (Map.runFuncWith Map.opArray fs shapes masks) (Map.generations fs) { inputs := inputs, store := [] } 0
+          match out with
+          | .raised _ _ _ store =>
+            let run := ResumeFS.runOn {} (folderOf inputs store) fs inputs internal
+            jObj [("calls", jList (fun (c : ResumeFS.CallRec) => jArr [jStr c.fn, putKw c.args]) run.calls),
+                  ("outputs", match run.res with | .ok x => putKw x.outputs | .error _ => Json.null)]
+          | _ => Json.null
+        | none => Json.null
+      return jObj ([("raised", Json.bool true), ("candidates", cands), ("resume", resume), ("gen", jNat g), ("log", jList putTask log), ("stored", putKw stored),
                     ("gens", jList (jList jStr) ((Map.generations fs).map fun g => g.map (·.name))),
-                    ("pipelineSnap", jOpt putSnap snapP), ("spec", spec)] ++ putRaised fails r)
+                    ("pipelineSnap", jOpt putSnap snapP), ("spec", spec)] ++ putAnnotated baseCls r ++ putRaised fails r)
   | _ => .error s!"unknown entry {m}"
 
 def main : IO Unit := loop handle
